@@ -32,10 +32,22 @@ DoSimplify(e) ==
   LET T == ToSet(e.set) IN
   /\ Need(e.raised = Unsat(T), "RejectedIffUnsatisfiable", e.raised)
   /\ Need(e.raised \/ \A x \in Points : e.accepts[x] = Accepts(T, x), "SimplifiedSetAcceptsSameVersions", e.accepts)
+\* field "requires" / "requires_private" / "both" (public and private lists name the same package: the
+\* specifiers are combined): pkg-config finds the package exactly at the versions the set accepts.
+\* field "conflicts" (next to a plain requirement on the same package): pkg-config refuses the package
+\* exactly at the versions the set accepts; a set the format cannot express may be rejected instead.
+\* a Conflicts field is a list of single comparisons, any of which refuses the version: the set of
+\* refused versions must be a union of (at most two) single-comparison sets
+ExpressibleAsConflicts(T) ==
+  \E R \in SUBSET AllSpecs : /\ Cardinality(R) <= 2
+                              /\ \A x \in Points : Accepts(T, x) = (\E r \in R : Sat(r, x))
 DoRequires(e) ==
   LET T == ToSet(e.set) IN
-  /\ Need((e.configure_exit # 0) = (Unsat(T) \/ e.multi), "UnsatisfiableRequirementRejectedAtConfigure", e.configure_exit)
-  /\ Need(e.configure_exit # 0 \/ \A x \in Points : e.exists[x] = Accepts(T, x), "RequiresAcceptsExactlyTheDeclaredVersions", e.exists)
+  IF e.field = "conflicts"
+  THEN /\ Need(e.configure_exit = 0 \/ Unsat(T) \/ ~ExpressibleAsConflicts(T), "ConflictRuleRejectedOnlyIfInexpressible", e.configure_exit)
+       /\ Need(e.configure_exit # 0 \/ \A x \in Points : e.exists[x] = ~Accepts(T, x), "ConflictsRefuseExactlyTheDeclaredVersions", e.exists)
+  ELSE /\ Need((e.configure_exit # 0) = (Unsat(T) \/ e.multi), "UnsatisfiableRequirementRejectedAtConfigure", e.configure_exit)
+       /\ Need(e.configure_exit # 0 \/ \A x \in Points : e.exists[x] = Accepts(T, x), "RequiresAcceptsExactlyTheDeclaredVersions", e.exists)
 TraceNext == /\ l <= Len(Traces[t].events)
              /\ LET e == Traces[t].events[l] IN
                 CASE e.ev = "Flags" -> DoFlags(e) [] e.ev = "Simplify" -> DoSimplify(e) [] e.ev = "Requires" -> DoRequires(e)
